@@ -168,9 +168,15 @@ def run_length(ctx, p):
     e = entry_of(p)
     args, kwargs, pos, n, form = p['args'], p['kwargs'], p['pos'], p['n'], p['form']
     v = np.arange(1, n + 1, dtype=np.float64) * 0.25 + 0.1
+    if p.get('fill') == 'zeros':        # (all zero: the value for which a shortcut ahead of the length test would answer)
+        v = np.zeros(n)
+    elif p.get('fill') == 'unit':
+        v = np.eye(n)[0]
     a1, k1 = setpos(args, kwargs, pos, gen.as_form(v, form) if n > 0 else ([] if form == 'list' else (() if form == 'tuple' else np.zeros((0,)))))
     o = attempt(e, a1, k1, recv_of(p))
     sig = dict(api=e['name'], pos=str(pos), n=n, form=form)
+    if p.get('fill'):
+        sig['fill'] = p['fill']
     ctx.judge('length', o[0] == 'exc', dict(sig, kind='wrong_length_accepted', got='None' if (o[0] == 'ok' and o[1] is None) else 'value'),
               lambda: '%s: argument %s with %d elements (%s) was accepted and returned %s' % (e['name'], pos, n, form, core.short(o[1].data if isinstance(getattr(o[1], "data", None), list) else o[1], 300)))
     ctx.cell('length', e['name'], str(pos), n)
@@ -456,6 +462,8 @@ def run(ctx):
                             continue
                         for form in ((['array'] if 'listseq' in e['tags'] else ['list', 'array']) if n > 0 else ['list']):
                             drive(RUNNERS, ctx, 'length', dict(base, pos=ps, n=n, form=form))
+                            if n > 0 and (i + n) % 3 == 0:
+                                drive(RUNNERS, ctx, 'length', dict(base, pos=ps, n=n, form=form, fill=['zeros', 'unit'][(i + n) % 2]))
             for ps in [i_ for i_, s_ in enumerate(e['args']) if s_[0] in ('A', 'S', 'SPOS')]:
                 v_ = int(rng.integers(1, 7)) * (1 if e['args'][ps][0] == 'SPOS' else int(gen.sign(rng)))
                 drive(RUNNERS, ctx, 'scalars', dict(base, pos=ps, value=v_))
